@@ -9,7 +9,8 @@
        one-step facts about oi_next_f / oi_nth / oi_next_back / oi_len (hypotheses; Proofs/C10Glue.v.integrate
        discharges them with Proofs/OneIterProof.v + SelectProof.v - it was checked against those files and yields the
        unconditional C10_one_iter / C10_one_iter_entries, but those files are not part of this worktree);
-   (5) _statement definitions for the iterator types whose models are not available yet. *)
+   (5) _statement definitions for the iterator types whose models are not available yet;
+   (6) the run-length vector's four iterators, all histories, from every entry point (end of the file). *)
 From Coq Require Import NArith List Bool.
 Require Import SDS.Model.Mach SDS.Model.Bits SDS.Model.Raw SDS.Model.IntVec SDS.Model.BitVec SDS.Model.Iters.
 Require Import SDS.Spec.BitSeq SDS.Spec.SeqSpec SDS.Spec.Deque SDS.Spec.IterRefs.
@@ -234,17 +235,8 @@ Definition C10_sparse_zero_iter_statement (St : Type) (start : N * list N * entr
                           match snd x with EZero | ESelectZero _ => True | _ => False end)
                 start step fwd_fits (fun x => ref_of (SSparse (fst (fst x)) (snd (fst x))) (snd x)).
 
-(* run-length vector: a bit sequence B; RunIter yields its maximal runs (no size advertised) *)
-Definition C10_rl_run_iter_statement (St : Type) (start : list bool -> res St)
-    (step : list bool -> St -> call -> res (St * out (N * N))) : Prop :=
-  refines_deque (fun B => lenB B < 2 ^ 64) start step fwd_fits_nolen (fun B => Some (runs_of B)).
-(* rl_vector::Iter / OneIter / ZeroIter from every entry point (forward only, exact size) *)
-Definition C10_rl_iters_statement (St : Type) (start : list bool * entry -> res St)
-    (step : list bool * entry -> St -> call -> res (St * out (N * N))) : Prop :=
-  refines_deque (fun x => lenB (fst x) < 2 ^ 64 /\ entry_fits (snd x) /\
-                          match snd x with EIter | EOne | EZero | ESelect _ | ESelectZero _ | EPred _ | ESucc _ => True
-                                         | _ => False end)
-                start step fwd_fits (fun x => bitvec_ref (fst x) (ranked_ones (fst x)) (snd x)).
+(* run-length vector (RunIter; Iter / OneIter / ZeroIter from every entry point): PROVED, see C10_rl_run_iter and
+   C10_rl_iters at the end of this file (over run lists: a universe of 2^64-1 positions is not a bit list) *)
 
 (* wavelet matrix: ValueIter from value_iter x / select_iter r x / predecessor i x / successor i x
    (forward only, no size advertised); IntoIter (forward, exact). Its AccessIter is C10_access_iter_any. *)
@@ -307,3 +299,81 @@ Theorem C10_one_iter_entries : forall sp0 m0 sp m b B, bv_repr b B ->
     exists it it', it0 = Ok it /\ it_run (oi_step sp m tr b) it cs = Ok (it', snd (dq_run l cs)).
 Proof. exact one_iter_entries_all_histories. Qed.
 Print Assumptions C10_one_iter_entries.
+
+(* ================================================================ 6. the run-length vector *)
+
+(* Names of Model/RL.v shadow those of Model/BitVec.v from here on (both call their records oneiter / mkoi ...);
+   the step functions of the RL iterators are rl_ri_step / rl_bi_step / rl_oi_step / rl_zi_step (Model/RLIters.v):
+   next is the crate's, nth the std default (advance_by + next) over it, Len the exact size_hint; RunIter
+   advertises no size. *)
+Require Import SDS.Model.RL SDS.Model.RLIters SDS.Spec.Runs SDS.Spec.RunsIter SDS.Proofs.RLDeque.
+
+(* RunIter: for every list R of runs (sorted, non-overlapping, adjacency allowed), every length L with
+   end(R) <= L <= 2^64-1, both overflow-check modes, and EVERY finite sequence of next / nth(k) calls (any k):
+   construction and run_iter() return, every call returns Ok (no panic, no exhausted fuel), and the outputs are
+   those of the deque over the MAXIMAL runs of R - in particular nth(k) skips k runs, and after the first None
+   every further call answers None. *)
+Theorem C10_rl_run_iter : forall (m : mode) (R : list (N * N)) (L : N) (cs : list call),
+  runs_sorted 0 R -> runs_end R <= L -> L <= 2 ^ 64 - 1 -> lenN R < 2 ^ 56 ->
+  Forall (fun c => call_fwd c /\ c <> Len) cs ->
+  exists v it it',
+    rl_build m (map (fun r => BTrySet (fst r) (snd r)) R ++ [BSetLen L]) = Ok (v, map (fun _ => true) R ++ [true]) /\
+    rl_run_iter v = Ok it /\ it_run (rl_ri_step m v) it cs = Ok (it', snd (dq_run (maximal R) cs)).
+Proof. exact rl_run_iter_deque. Qed.
+Print Assumptions C10_rl_run_iter.
+
+(* Iter, OneIter (one_iter, select_iter r, predecessor x, successor x), ZeroIter (zero_iter, select_zero_iter r), for
+   every argument r, x (in particular every value below 2^64) and EVERY finite sequence of next / nth(k) / len calls:
+   the entry point returns an iterator, every call returns Ok, and the outputs are those of the deque over the
+   reference sequence [rl_ref (maximal R) L e] of Spec/RunsIter.v (all bits; the ranked set positions from rank
+   0 / r / rank(x+1)-1 / rank(x) on; the ranked unset positions from rank 0 / r on). len is the exact number of
+   items left after any history; an exhausted iterator stays exhausted. *)
+Theorem C10_rl_iters : forall (m : mode) (R : list (N * N)) (L : N),
+  runs_sorted 0 R -> runs_end R <= L -> L <= 2 ^ 64 - 1 -> lenN R < 2 ^ 56 ->
+  exists v,
+    rl_build m (map (fun r => BTrySet (fst r) (snd r)) R ++ [BSetLen L]) = Ok (v, map (fun _ => true) R ++ [true]) /\
+    (forall cs, Forall call_fwd cs ->
+       exists s s', rl_iter v = Ok s /\
+         it_run (rl_bi_step m v) s cs = Ok (s', snd (dq_run (bits_all (maximal R) L 0) cs))) /\
+    (forall e l cs, rl_ref (maximal R) L e = Some l -> Forall call_fwd cs ->
+       match rl_oi_entry m v e with
+       | Some start => exists s s', start = Ok s /\ it_run (rl_oi_step m v) s cs = Ok (s', snd (dq_run l cs))
+       | None => True
+       end) /\
+    (forall e l cs, rl_ref (maximal R) L e = Some l -> Forall call_fwd cs ->
+       match rl_zi_entry m v e with
+       | Some start => exists s s', start = Ok s /\ it_run (rl_zi_step m v) s cs = Ok (s', snd (dq_run l cs))
+       | None => True
+       end).
+Proof. exact rl_iters_deque. Qed.
+Print Assumptions C10_rl_iters.
+
+(* the reference sequences are the intended ones: exact lengths (count_ones - k, count_zeros - k, len - p), the
+   k-th item is (k, select(k)) / (k, select_zero(k)), and the first item of the successor / predecessor reference is
+   the specification's successor / predecessor *)
+Theorem C10_rl_refs : forall (F : list (N * N)) (L : N), runs_maximal true 0 F -> runs_end F <= L ->
+  (forall k, lenA (ones_all F k) = runs_ones F - k) /\
+  (forall k, lenA (zeros_all F L k) = L - runs_ones F - k) /\
+  (forall p, lenA (bits_all F L p) = L - p) /\
+  (forall k, hd_error (ones_all F k) = match runs_select F k with Some p => Some (k, p) | None => None end) /\
+  (forall k, hd_error (zeros_all F L k) = match runs_select_zero F L k with Some p => Some (k, p) | None => None end) /\
+  (forall x, match rl_ref F L (ESucc x) with Some l => hd_error l = runs_succ F x | None => False end) /\
+  (forall x, match rl_ref F L (EPred x) with Some l => hd_error l = runs_pred F x | None => False end).
+Proof. exact rl_ref_facts. Qed.
+Print Assumptions C10_rl_refs.
+
+(* non-vacuity: runs 2..4 and 5..6 (adjacent: one maximal run 2..6) and 9 in a universe of 12 *)
+Example C10_rl_example :
+  (let* (v, _) := rl_build Debug [BTrySet 2 3; BTrySet 5 2; BTrySet 9 1; BSetLen 12] in
+   let* it := rl_run_iter v in
+   let* (_, a) := it_run (rl_ri_step Debug v) it [Nth 1; Next] in
+   let* s := rl_predecessor Debug v 8 in
+   let* (_, b) := it_run (rl_oi_step Debug v) s [Len; Nth 1; Len; Next; Len] in
+   let* z := rl_select_zero_iter Debug v 3 in
+   let* (_, c) := it_run (rl_zi_step Debug v) z [Len; Next; Nth 1; Nth 5; Len] in
+   Ok (a, b, c))
+  = Ok ([Item (Some (9, 1)); Item None],
+        [Count 2; Item (Some (5, 9)); Count 0; Item None; Count 0],
+        [Count 3; Item (Some (3, 8)); Item (Some (5, 11)); Item None; Count 0]) /\
+  snd (dq_run (maximal [(2, 3); (5, 2); (9, 1)]) [Nth 1; Next]) = [Item (Some (9, 1)); Item None].
+Proof. split; vm_compute; reflexivity. Qed.
